@@ -503,6 +503,14 @@ def check_input_copy(ctx: Ctx, oid: str):
         ctx.ob(oid, "R17 PARAM-IMMUTABLE", f, "the working clause list is a recognisable copy of the input", False, f"`{ast.unparse(v)[:60]}`", node=d)
 
 
+def check_assign(ctx: Ctx, oid: str):
+    """assign() is the only place a variable gets a value: value, level, reason and trail entry are written together"""
+    f = ctx.func("sat", "solve_sat.assign")
+    body = [ast.unparse(x) for x in f.node.body if not isinstance(x, (ast.Nonlocal,)) and not (isinstance(x, ast.Expr) and isinstance(x.value, ast.Constant))]
+    need = ["vals[var] = 1 if val else 0", "levels[var] = len(trail_lim)", "reasons[var] = reason_idx", "trail.append(var)"]
+    ctx.ob(oid, "R16 PAIRED-EFFECTS", f, "assign records value, decision level, reason and trail entry of the same variable, once each", all(x in body for x in need) and sum(1 for x in body if x.startswith(("vals[", "levels[", "reasons[", "trail."))) == 4, f"{body}", node=f.node)
+
+
 def check_variable_universe(ctx: Ctx, oid: str):
     """Every array of the solver is sized by n_vars: it must cover the variables of the clauses and of the assumptions
     (an assumed variable need not occur in any clause)."""
